@@ -194,7 +194,11 @@ type routeResult struct {
 	root      hash.Hash
 	ok        bool
 	writeLogs []writelog.WriteLog
-	ndb       dbApi.NodeDB // kept open for the checkpoint route (closed by caller)
+	// servedLogs: for finalizing database routes, the log the node database serves for
+	// (previous root, this root) instead of the one Commit returned (first commit: returned log).
+	servedLogs  []writelog.WriteLog
+	servedCount int
+	ndb         dbApi.NodeDB // kept open for the checkpoint route (closed by caller)
 	version   uint64
 	commits   int
 	collapse  int
@@ -354,6 +358,16 @@ func runCase(i int) {
 			run.Count("route/writelog-replay-commit-each", 1)
 			if f := replayCheck(spec, nil, res.writeLogs, res.model); f != nil {
 				report(i, set, ref, spec, f, func(sp *routeSpec, h []hop) *failure { return replayCheck(sp, h, nil, nil) })
+			}
+		}
+		// The same replay with the logs the node database serves (GetWriteLog) for the pairs of
+		// consecutive finalized roots of a finalizing database route.
+		if res.ok && res.servedCount > 0 && len(res.servedLogs) == len(res.writeLogs) {
+			run.Count("routes_executed", 1)
+			run.Count("route/writelog-replay-served-by-db", 1)
+			run.Count("served_write_logs_fetched", int64(res.servedCount))
+			if f := servedReplayCheck(spec, nil, res.servedLogs, res.model); f != nil {
+				report(i, set, ref, spec, f, func(sp *routeSpec, h []hop) *failure { return servedReplayCheck(sp, h, nil, nil) })
 			}
 		}
 	}
@@ -802,6 +816,11 @@ func runHistory(spec *routeSpec, hist []hop, count, keepDB bool) (res routeResul
 	tree = mkvs.New(nil, treeDB, node.RootTypeState, opts...)
 	version := spec.StartVer
 	first := true
+	var (
+		havePrev    bool
+		prevRoot    hash.Hash
+		prevVersion uint64
+	)
 
 	// compareContents iterates the whole tree and compares it with the model.
 	compareContents := func(why string) *failure {
@@ -1047,6 +1066,35 @@ func runHistory(spec *routeSpec, hist []hop, count, keepDB bool) (res routeResul
 				if err = ndb.Finalize([]node.Root{lab.Root(version, root)}); err != nil {
 					return res, fail("finalize", err)
 				}
+				if !spec.NoWriteLog {
+					// The log the database serves for this pair of consecutive finalized roots.
+					served := wl
+					if havePrev && !prevRoot.Equal(&root) {
+						curOp = "getwritelog"
+						it, gerr := ndb.GetWriteLog(bg, lab.Root(prevVersion, prevRoot), lab.Root(version, root))
+						if gerr != nil {
+							return res, fail("getwritelog", gerr)
+						}
+						served = nil
+						for {
+							more, nerr := it.Next()
+							if nerr != nil {
+								return res, fail("getwritelog", nerr)
+							}
+							if !more {
+								break
+							}
+							e, verr := it.Value()
+							if verr != nil {
+								return res, fail("getwritelog", verr)
+							}
+							served = append(served, e)
+						}
+						res.servedCount++
+					}
+					res.servedLogs = append(res.servedLogs, served)
+				}
+				havePrev, prevRoot, prevVersion = true, root, version
 			}
 			if ndb != nil && spec.Reopen {
 				curOp = "reopen"
@@ -1105,6 +1153,27 @@ func replayCheck(spec *routeSpec, hist []hop, logs []writelog.WriteLog, final *l
 		}
 	}
 	return nil
+}
+
+// servedReplayCheck is replayCheck with the logs served by the node database.
+func servedReplayCheck(spec *routeSpec, hist []hop, logs []writelog.WriteLog, final *lab.Model) *failure {
+	if logs == nil {
+		if len(hist) == 0 || hist[len(hist)-1].Op != "commit" {
+			hist = append(append([]hop{}, hist...), hop{Op: "commit"})
+		}
+		res, f := runHistory(spec, hist, false, false)
+		if f != nil || res.servedCount == 0 || len(res.servedLogs) != len(res.writeLogs) {
+			return nil
+		}
+		logs, final = res.servedLogs, res.model
+	}
+	f := replayCheck(spec, nil, logs, final)
+	if f != nil {
+		f.Sig = strings.Replace(f.Sig, "writelog-replay-", "served-writelog-replay-", 1)
+		f.Raw = strings.Replace(f.Raw, "writelog-replay-", "served-writelog-replay-", 1)
+		f.What = "logs served by the node database (GetWriteLog) instead of the returned ones: " + f.What
+	}
+	return f
 }
 
 // classifyLostNode names the known trigger of a lost node on the nop database
